@@ -486,7 +486,14 @@ func (o *ObjectSchema) Validate(data any) error {
 	return o.validateMap(d)
 }
 
-func (o *ObjectSchema) applySubObjectDefaultValues(propertyID string, property *PropertySchema, rawData map[string]any) {
+// applySubObjectDefaultValues fills in the defaults of the sub-object that the unset property holds, and of the
+// sub-objects below it. The path lists the objects the descent has come through, this object first.
+func (o *ObjectSchema) applySubObjectDefaultValues(
+	propertyID string,
+	property *PropertySchema,
+	rawData map[string]any,
+	path ...Object,
+) {
 	reflectedType := property.ReflectedType()
 	if reflectedType.Kind() == reflect.Pointer {
 		return
@@ -500,6 +507,17 @@ func (o *ObjectSchema) applySubObjectDefaultValues(propertyID string, property *
 	default:
 		return
 	}
+	if len(path) == 0 {
+		path = []Object{o}
+	}
+	for _, onPath := range path {
+		if onPath == subObject {
+			// A reference back to an object the descent came through (a tree node, a linked list): the unset property
+			// stays unset. Following it would never end.
+			return
+		}
+	}
+	path = append(path[:len(path):len(path)], subObject)
 	data := map[string]any{}
 	if existing, ok := rawData[propertyID].(map[string]any); ok {
 		// The existing value may be the shared, decoded default of the property: work on a copy.
@@ -512,7 +530,7 @@ func (o *ObjectSchema) applySubObjectDefaultValues(propertyID string, property *
 		}
 	}
 	for subPropertyID, subProperty := range subObject.Properties() {
-		o.applySubObjectDefaultValues(subPropertyID, subProperty, data)
+		o.applySubObjectDefaultValues(subPropertyID, subProperty, data, path...)
 	}
 	if len(data) != 0 {
 		rawData[propertyID] = data
